@@ -200,6 +200,8 @@ def forms_program():
                 ["ifx", ["walrus", "w", V], [use("w")], []],
                 ["bind", "y", ["add", ["walrus", "u", V], ["walrus", "w", V]]],
                 use("u", "w", "y"),
+                ["bind", "z", ["add", ["walrus", "n1", ["add", ["walrus", "n2", V], V]], V]],
+                ["ifx", ["walrus", "n3", ["walrus", "n4", V]], [use("n1", "n2", "n3", "n4", "z")], []],
                 ["ret", var("y")],
             ],
         )
